@@ -36,7 +36,7 @@ OD_INDEX = {"u8": 0x3001, "u16": 0x3002, "u32": 0x3004, "u64": 0x3008, "str": 0x
 def bounds(tier):
     return {"download_lengths": "0..24" if tier == "quick" else "0..64 + {127,128,889,890,1024,1025,1031,10000}",
             "upload_lengths": "0..24" if tier == "quick" else "0..64 + {127,128,889,890,1024,1025,1031,10000}",
-            "splits": "all compositions n<=9; 1- and 2-cuts above"}
+            "splits": "all compositions n<=9 (quick) / n<=12 (thorough); 1- and 2-cuts above"}
 
 
 def _od():
@@ -65,7 +65,8 @@ def cases(tier, seed):
                 for pred in preds:
                     k += 1
                     out.append({"dir": "dl", "n": n, "api": api, "buf": buffering, "pred": pred,
-                                "addr": list(ADDRS[(k + seed) % len(ADDRS)]), "seed": seed})
+                                "addr": list(ADDRS[(k + seed) % len(ADDRS)]), "seed": seed,
+                                "allsplits": 9 if tier == "quick" else 12})
     for n in list(range(0, N + 1)) + (big if tier == "thorough" else [31, 33, 47, 48]):
         for style in ("exp_s", "exp_nos", "seg_s", "seg_nos"):
             if style.startswith("exp") and not 1 <= n <= 4:
@@ -112,8 +113,11 @@ def compositions(n):
         yield parts
 
 
+ALL_COMPOSITIONS_UP_TO = 9
+
+
 def splits_for(n):
-    if n <= 9:
+    if n <= ALL_COMPOSITIONS_UP_TO:
         return list(compositions(n))
     out = [[n]]
     if n <= 64:
@@ -354,6 +358,8 @@ def run_upload(case, st):
 
 
 def run_case(case, st):
+    global ALL_COMPOSITIONS_UP_TO
+    ALL_COMPOSITIONS_UP_TO = case.get("allsplits", 9)
     if case["dir"] == "dl":
         run_download(case, st)
     else:
